@@ -46,3 +46,43 @@ Theorem C05_select_reads : forall source sc vals, scope_inv sc vals -> forall s 
     Conv (fun fx => read_select fx (ts ++ rest)) (den_select source sc vals s, rest).
 Proof. exact write_subq_reads. Qed.
 Print Assumptions C05_select_reads.
+
+(** ** byte level, end to end *)
+From PQL Require Import Spec.SqlLex Spec.SqlRead Spec.FlattenStmt Model.Trans Proofs.ReadBack Proofs.ReadBackStmt Proofs.SubqWf Proofs.ParsedWf
+  Proofs.SqlGlue Proofs.SqlGlueProg Proofs.LexTokOk.
+
+(** For every source that parses and compiles without parameters (no SQL keyword used as a
+    pass-through function name -- finding F1), the very bytes Compile returns lex, with the
+    dialect's own lexer (comments, strings, quoted identifiers, numbers, longest-match operators),
+    into exactly the token list the printed pieces denote: no unterminated token or comment, no two
+    pieces fused into one token, no token split.  No premise on the characters of any literal or
+    name. *)
+Theorem C05_compiled_bytes_lex : forall s ss ps, parse s = ParseOk ss -> Forall names_ok_stmt ss ->
+  compile [] s = COk ps -> exists ts, ptoks ps = Some ts /\ sql_lex ClickHouse (render ps) = Some ts.
+Proof. exact compile_lexes. Qed.
+Print Assumptions C05_compiled_bytes_lex.
+
+(** ... and those tokens are read by the reference statement reader as `[WITH name AS (select), ...]
+    select ;` whose members are the subqueries of the program: bytes -> tokens -> statement. *)
+Theorem C05_compiled_bytes_parse : forall s ss ps, parse s = ParseOk ss -> Forall names_ok_stmt ss -> compile [] s = COk ps ->
+  exists sc t subs q rctes,
+    stmt_loop [] None ss = Ok (sc, Some t) /\ split_queries sc [] t = Ok subs /\ rev subs = q :: rctes /\
+    let '(names, vals) := let_vals [] (fun _ => XWord []) false ss in
+    exists ts, sql_lex ClickHouse (render ps) = Some ts /\
+      Conv (fun fx => read_stmt fx ts)
+           (map (fun sq => (sq_name sq, den_select s sc vals sq)) (rev rctes), den_select s sc vals q).
+Proof. exact compile_bytes_reread. Qed.
+Print Assumptions C05_compiled_bytes_parse.
+
+(** the same for any statement list satisfying the side conditions (not only parser output) *)
+Theorem C05_statements_bytes_lex : forall source ss ps, stmts_wf ss -> stmts_lex ss -> compile_stmts source [] ss = Ok ps ->
+  glue_ok ps = true /\ exists ts, ptoks ps = Some ts /\ sql_lex ClickHouse (render ps) = Some ts.
+Proof. intros source ss ps Hwf Hlx H. split; [exact (compile_stmts_glue source ss ps Hwf Hlx H)|exact (compile_bytes_lex source ss ps Hwf Hlx H)]. Qed.
+Print Assumptions C05_statements_bytes_lex.
+
+Example C05_compiled_bytes_nonvacuous :
+  exists ss ps ts, parse (L "let n = 0x10; T | where a == -b + 1.50e3 and c in ('x--', n) | join kind=leftouter (U | summarize m = max(x) by k) on k | sort by m desc | take n") = ParseOk ss
+     /\ Forall names_ok_stmt ss
+     /\ compile [] (L "let n = 0x10; T | where a == -b + 1.50e3 and c in ('x--', n) | join kind=leftouter (U | summarize m = max(x) by k) on k | sort by m desc | take n") = COk ps
+     /\ sql_lex ClickHouse (render ps) = Some ts /\ ptoks ps = Some ts.
+Proof. eexists _, _, _. split; [vm_compute; reflexivity|]. split; [repeat constructor|]. split; [vm_compute; reflexivity|]. split; vm_compute; reflexivity. Qed.
